@@ -8,9 +8,9 @@ res = {}
 rp = os.path.join(V, "seeded", "RESULTS.json")
 if os.path.exists(rp):
     res = json.load(open(rp))
-for d in sorted(glob.glob(os.path.join(V, "seeded", "S*"))):
+for d in sorted(glob.glob(os.path.join(V, "seeded", "[ST]*_*"))):
     m = json.load(open(os.path.join(d, "meta.json")))
-    if only and m["id"] not in only:
+    if only and m["id"] not in only and not any(m["id"].startswith(o) for o in only):
         continue
     env = dict(os.environ); env["SEED_TIER"] = m.get("tier", "quick")
     pf = os.path.join(d, "patch_rebased.diff")
